@@ -348,6 +348,11 @@ func notFromServer(p *refcodec.Packet) string {
 				return "wildcard or NUL in the topic name"
 			}
 		}
+		if p.Dup {
+			// the broker never sends anything twice on one connection, and the flag of an
+			// incoming PUBLISH is not to be propagated [MQTT-3.3.1-3]
+			return "DUP flag set on a first transmission"
+		}
 	default:
 		return "packet type a client sends"
 	}
